@@ -753,6 +753,38 @@ def _reader_iteration_sites(prog, gp: FuncInfo):
     return sites, repeated[0]
 
 
+def _fold_value(e: ast.AST, env: dict):
+    """constant folding with Python's value semantics (`a or b` gives an operand, not a truth value) of an expression
+    made of names, self.<x> / self._<x> (read as the name x), literals, arithmetic, comparisons, and / or / not,
+    conditional expressions and min / max / int / len-free calls.  Anything else raises."""
+    if isinstance(e, ast.Constant):
+        return e.value
+    if isinstance(e, ast.Name):
+        return env[e.id]
+    if isinstance(e, ast.Attribute) and isinstance(e.value, ast.Name) and e.value.id == "self":
+        return env[e.attr.lstrip("_")]
+    if isinstance(e, ast.BoolOp):
+        v = None
+        for x in e.values:
+            v = _fold_value(x, env)
+            if (isinstance(e.op, ast.Or) and v) or (isinstance(e.op, ast.And) and not v):
+                return v
+        return v
+    if isinstance(e, ast.UnaryOp) and isinstance(e.op, ast.Not):
+        return not _fold_value(e.operand, env)
+    if isinstance(e, ast.IfExp):
+        return _fold_value(e.body if _fold_value(e.test, env) else e.orelse, env)
+    if isinstance(e, ast.Compare) and len(e.ops) == 1:
+        a, b = _fold_value(e.left, env), _fold_value(e.comparators[0], env)
+        return {ast.Is: a is b, ast.IsNot: a is not b, ast.Eq: a == b, ast.NotEq: a != b}.get(type(e.ops[0])) if isinstance(e.ops[0], (ast.Is, ast.IsNot, ast.Eq, ast.NotEq)) else {ast.Lt: a < b, ast.LtE: a <= b, ast.Gt: a > b, ast.GtE: a >= b}[type(e.ops[0])]
+    if isinstance(e, ast.BinOp):
+        a, b = _fold_value(e.left, env), _fold_value(e.right, env)
+        return {ast.Add: lambda: a + b, ast.Sub: lambda: a - b, ast.Mult: lambda: a * b, ast.FloorDiv: lambda: a // b, ast.Div: lambda: a / b}[type(e.op)]()
+    if isinstance(e, ast.Call) and isinstance(e.func, ast.Name) and e.func.id in ("min", "max", "int") and not e.keywords:
+        return {"min": min, "max": max, "int": int}[e.func.id](*[_fold_value(a, env) for a in e.args])
+    raise ValueError(unparse(e))
+
+
 def rule_r4(prog, res) -> None:
     """the configured chunk size reaches the iteration state of every reader"""
     base = prog.find_class("DataChunkReader")
@@ -783,6 +815,22 @@ def rule_r4(prog, res) -> None:
             names = {x.id for x in ast.walk(s.value) if isinstance(x, ast.Name)}
             if "chunksize" not in names:
                 res.violation("C18.R4", init, s, f"{ci.name}.chunksize is set to {unparse(s.value)}, independent of the requested chunk size", key_extra=f"chunksize-ignored-{ci.name}")
+                break
+            # folded: a requested size that is smaller than the input and the default is what is stored; without a
+            # request the default (capped by the input size) is
+            vals = {}
+            for kk, e_ in {"req": {"chunksize": 7}, "none": {"chunksize": None}}.items():
+                try:
+                    vals[kk] = _fold_value(s.value, {"CHUNKSIZE": 1000, "num_records": 50, **e_})
+                except TypeError:
+                    vals[kk] = "a TypeError"  # (e.g. min(50, None))
+                except Exception:  # noqa: BLE001 - not a plain arithmetic / selection expression: no verdict from this clause
+                    vals = None
+                    break
+            if vals is None:
+                continue
+            if vals["req"] != 7 or vals["none"] not in (1000, 50):
+                res.violation("C18.R4", init, s, f"{ci.name}.chunksize = {unparse(s.value)} gives {vals['req']} for a requested chunk size of 7 (default 1000, 50 records) and {vals['none']} without a request: the configured bound on the chunk size is not what the reader uses", key_extra=f"chunksize-value-{ci.name}")
                 break
         else:
             res.ok("C18.R4", res.site(init), "chunksize parameter is stored / forwarded to the base reader")
@@ -926,6 +974,90 @@ def rule_r7(prog, res) -> None:
         raise AnalysisError(f"C18.R7: only {n} concrete chunk readers analysed, minimum 4")
 
 
+CONSUMING = {"read_row_group", "read_row_groups", "popleft", "pop", "get", "read", "readline", "next", "__next__", "recv"}
+
+
+def rule_r8(prog, res) -> None:
+    """nothing that a reader takes out of its source or its read-ahead buffer is dropped: in everything `__next__` reaches
+    on self, (a) the value of a consuming call (a row group read from the file, an item popped from the cache) is used
+    afterwards, and (b) the part of an over-full buffer that does not fit the chunk (`x[chunksize:]`) is pushed back
+    whenever it holds at least one record (the guard is folded for lengths 0 and 1).  A dropped row group or a dropped
+    one-record remainder shortens the catalog silently."""
+    base = prog.find_class("DataChunkReader")
+    n = 0
+    for ci in prog.subclasses(base):
+        nxt = prog.find_method(ci, "__next__")
+        if nxt is None or nxt.is_abstract:
+            continue
+        seen, todo = [], [nxt]
+        while todo:
+            m = todo.pop()
+            if m in seen:
+                continue
+            seen.append(m)
+            for c in calls_in(m):
+                f = c.func
+                if isinstance(f, ast.Attribute) and isinstance(f.value, ast.Name) and f.value.id == "self":
+                    t = prog.find_method(ci, f.attr)
+                    if t is not None and not t.is_property:
+                        todo.append(t)
+        for m in seen:
+            if m.cls is not ci and m.cls is not None and ci.name != m.cls.name and m.cls in [k for k in prog.mro(ci)] and any(m in s2 for s2 in []):
+                continue
+            for x in walk_no_nested(m.node):
+                if isinstance(x, ast.Assign) and len(x.targets) == 1 and isinstance(x.targets[0], ast.Name) and isinstance(x.value, ast.Call) and isinstance(x.value.func, ast.Attribute) and x.value.func.attr in CONSUMING and "self" in unparse(x.value.func.value):
+                    nm = x.targets[0].id
+                    n += 1
+                    res.touch(m)
+                    # a use that keeps the data: handed to a call other than a size query, returned / yielded, stored
+                    pmm = parents_map(m.node)
+                    used = False
+                    for y in ast.walk(m.node):
+                        if isinstance(y, ast.Name) and y.id == nm and isinstance(y.ctx, ast.Load):
+                            cur = pmm.get(id(y))
+                            while cur is not None and not isinstance(cur, ast.stmt):
+                                if isinstance(cur, ast.Call) and (dotted(cur.func) or unparse(cur.func)).split(".")[-1] not in ("len", "isinstance", "type", "debug", "info", "print"):
+                                    used = True
+                                cur = pmm.get(id(cur))
+                            if isinstance(cur, (ast.Return, ast.Assign, ast.AnnAssign)) or (isinstance(cur, ast.Expr) and isinstance(cur.value, (ast.Yield, ast.YieldFrom))):
+                                if not (isinstance(cur, ast.Assign) and cur is x):
+                                    used = used or not isinstance(cur, ast.AugAssign)
+                    if used:
+                        res.ok("C18.R8", res.site(m, f"{ci.name}: {nm}"), f"the value taken by {unparse(x.value.func)[:40]}() is used")
+                    else:
+                        res.violation("C18.R8", m, x, f"{ci.name}: `{unparse(x)[:70]}` takes data out of the source / the read-ahead buffer and drops it: those records never reach a chunk, the catalog is short without any error", key_extra=f"consumed-dropped-{m.name}-{nm}")
+            # (b) remainders
+            rem = {}
+            for x in walk_no_nested(m.node):
+                if isinstance(x, ast.Assign) and len(x.targets) == 1 and isinstance(x.targets[0], ast.Name) and isinstance(x.value, ast.Subscript) and isinstance(x.value.slice, ast.Slice) and x.value.slice.lower is not None and x.value.slice.upper is None and "chunksize" in unparse(x.value.slice.lower):
+                    rem[x.targets[0].id] = x
+            for x in walk_no_nested(m.node):
+                if isinstance(x, ast.If):
+                    names = {y.id for y in ast.walk(x.test) if isinstance(y, ast.Name)} & set(rem)
+                    if not names:
+                        continue
+                    nm = next(iter(names))
+                    pushes = any(isinstance(c, ast.Call) and isinstance(c.func, ast.Attribute) and c.func.attr in ("appendleft", "append", "insert", "extendleft") and any(isinstance(y, ast.Name) and y.id == nm for a in c.args for y in ast.walk(a)) for s_ in x.body for c in ast.walk(s_))
+                    if not pushes:
+                        continue
+                    n += 1
+                    res.touch(m)
+                    try:
+                        tab = {k_: bool(ceval(x.test, {f"len({nm})": k_, nm: list(range(k_)), f"{nm}.num_rows": k_})) for k_ in (0, 1, 2)}
+                    except Unknown:
+                        raise AnalysisError(f"C18.R8: cannot fold the remainder guard `{unparse(x.test)}` in {m.short}") from None
+                    if tab[1] and tab[2]:
+                        res.ok("C18.R8", res.site(m, f"{ci.name}: remainder {nm}"), f"`{unparse(x.test)}` pushes every non-empty remainder back ({tab})")
+                    else:
+                        res.violation("C18.R8", m, x, f"{ci.name}: the remainder `{nm}` of an over-full buffer is only pushed back when `{unparse(x.test)}` ({tab} for lengths 0, 1, 2): a remainder of one record is dropped, the catalog is one record short for every such chunk", key_extra=f"remainder-dropped-{m.name}")
+            for nm, x in rem.items():
+                if not any(isinstance(c, ast.Call) and isinstance(c.func, ast.Attribute) and c.func.attr in ("appendleft", "append", "insert", "extendleft") and any(isinstance(y, ast.Name) and y.id == nm for a in c.args for y in ast.walk(a)) for c in ast.walk(m.node)):
+                    n += 1
+                    res.violation("C18.R8", m, x, f"{ci.name}: the remainder `{unparse(x)[:50]}` of an over-full buffer is never pushed back: what does not fit the chunk is lost", key_extra=f"remainder-never-pushed-{m.name}")
+    if n < 3:
+        raise AnalysisError(f"C18.R8: only {n} consuming reads / remainders found in the readers, minimum 3")
+
+
 RULES = [
     ("C18.R1", rule_r1, QUICK),
     ("C18.R2", rule_r2, QUICK),
@@ -934,4 +1066,5 @@ RULES = [
     ("C18.R5", rule_r5, QUICK),
     ("C18.R6", rule_r6, QUICK),
     ("C18.R7", rule_r7, QUICK),
+    ("C18.R8", rule_r8, QUICK),
 ]
